@@ -1,6 +1,7 @@
 package main
 
 import (
+	"strings"
 	"golang.org/x/tools/go/ssa"
 	"fmt"
 	"go/ast"
@@ -174,6 +175,39 @@ func init() {
 					}
 				}
 			}
+		}
+	})
+}
+
+func init() {
+	register("DBGD", "debug: diagnostic constructor call sites", func(c *Ctx, r *Report) {
+		w := c.W
+		for _, cl := range w.callersOf(func(n string) bool {
+			return strings.HasPrefix(n, "core/validators/diagnostics.New") && strings.HasSuffix(n, "Diagnostic")
+		}) {
+			fnk := fnShort(cl.Parent())
+			if strings.HasPrefix(fnk, "core/validators/diagnostics.") {
+				continue
+			}
+			fi := w.fn(fnk)
+			if fi == nil {
+				fmt.Println("DIAG", w.pos(cl.Pos()), fnk, "NOFI")
+				continue
+			}
+			// AST call
+			var call *ast.CallExpr
+			ast.Inspect(fi.Decl, func(n ast.Node) bool {
+				if ce, ok := n.(*ast.CallExpr); ok && ce.Lparen == cl.Pos() {
+					call = ce
+				}
+				return true
+			})
+			if call == nil {
+				fmt.Println("DIAG", w.pos(cl.Pos()), fnk, "NOAST")
+				continue
+			}
+			last := call.Args[len(call.Args)-1]
+			fmt.Printf("DIAG %s %s\n   file=%s\n   range=%s\n", w.pos(cl.Pos()), fnk, exprString(call.Args[0]), exprString(last))
 		}
 	})
 }
